@@ -865,6 +865,7 @@ struct ExtractSpec {
     spec_only: bool,
     iter_params: Vec<String>,
     contract_file: Option<String>,
+    until: Option<String>,
     iter_args: Vec<(String, usize)>,
 }
 
@@ -1008,8 +1009,61 @@ impl Unit {
         let mut sig = found.sig.clone();
         let mut block = found.block.clone();
 
+        // R-MUTSELF: `fn f(mut self, ..)` == `fn f(self, ..) { let mut __fjx_self = self; .. }` (Verus rejects `mut self`)
+        let mut mutself = false;
+        if let Some(syn::FnArg::Receiver(rc)) = sig.inputs.first_mut() {
+            if rc.reference.is_none() && rc.mutability.is_some() {
+                rc.mutability = None;
+                mutself = true;
+            }
+        }
+        if mutself {
+            struct SelfRen;
+            impl VisitMut for SelfRen {
+                fn visit_ident_mut(&mut self, i: &mut proc_macro2::Ident) {
+                    if i == "self" {
+                        *i = proc_macro2::Ident::new("__fjx_self", i.span());
+                    }
+                }
+                fn visit_macro_mut(&mut self, m: &mut syn::Macro) {
+                    // token-level rename inside macro arguments
+                    fn ren(ts: TokenStream) -> TokenStream {
+                        ts.into_iter()
+                            .map(|t| match t {
+                                TokenTree::Ident(i) if i == "self" => TokenTree::Ident(proc_macro2::Ident::new("__fjx_self", i.span())),
+                                TokenTree::Group(g) => {
+                                    let mut ng = proc_macro2::Group::new(g.delimiter(), ren(g.stream()));
+                                    ng.set_span(g.span());
+                                    TokenTree::Group(ng)
+                                }
+                                o => o,
+                            })
+                            .collect()
+                    }
+                    m.tokens = ren(m.tokens.clone());
+                }
+            }
+            SelfRen.visit_block_mut(&mut block);
+            block.stmts.insert(0, parse_quote! { let mut __fjx_self = self; });
+            log.push("R-MUTSELF `mut self` receiver desugared to `let mut __fjx_self = self;`".into());
+        }
+        // R-SLICE: keep the statements up to and including the anchor statement; the rest is not verified text
+        if let Some(needle) = &spec.until {
+            let n = nospace(needle);
+            let hits: Vec<usize> = block.stmts.iter().enumerate().filter(|(_, s)| tok(*s).contains(&n)).map(|(i, _)| i).collect();
+            if hits.len() != 1 {
+                die(&format!("lost anchor: R-SLICE anchor `{needle}` matched {} top-level statements of {}", hits.len(), spec.name));
+            }
+            let dropped = block.stmts.len() - hits[0] - 1;
+            block.stmts.truncate(hits[0] + 1);
+            block.stmts.push(Stmt::Expr(parse_quote! { shim_slice_end() }, None));
+            log.push(format!("R-SLICE body cut after `{needle}`: {dropped} trailing statement(s) NOT under contract"));
+        }
         let mut pats = self.world_pats.clone();
         pats.extend(spec.world_pats.iter().cloned());
+        if spec.world {
+            pats.extend(self.auto_world_patterns());
+        }
         let effect_names: Vec<String> = pats
             .iter()
             .map(|p| p.rsplit_once('.').map(|x| x.1.to_string()).unwrap_or(p.clone()))
@@ -1366,6 +1420,68 @@ impl Unit {
         ));
     }
 
+    /// R-WORLD effect table, derived from the shim: a method name whose every declaration so far takes the ghost
+    /// world gets the pattern `*.name`, unless the name is also a common std method name (those need an explicit
+    /// receiver pattern in the unit file, because syn has no types)
+    fn auto_world_patterns(&self) -> Vec<String> {
+        const STOP: &[&str] = &[
+            "insert", "remove", "get", "next", "clear", "len", "load", "store", "read", "write", "open", "send", "lock",
+            "iter", "push", "pop", "contains_key", "first", "last", "take", "drop", "new", "clone", "default", "flush",
+            "range", "prefix", "set", "is_empty", "values", "keys", "entry", "retain", "min", "max", "fetch_max", "fetch_add",
+            "recv", "try_send", "join", "finish", "update", "sum", "map", "close",
+        ];
+        let mut with: BTreeMap<String, (usize, usize)> = BTreeMap::new();
+        let text = &self.out;
+        let bytes = text.as_bytes();
+        let mut i = 0;
+        while let Some(p) = text[i..].find("fn ") {
+            let start = i + p + 3;
+            i = start;
+            if start >= 4 && (bytes[start - 4] as char).is_alphanumeric() {
+                continue;
+            }
+            let name_end = text[start..].find(|c: char| !(c.is_alphanumeric() || c == '_')).map(|e| start + e).unwrap_or(text.len());
+            let name = &text[start..name_end];
+            if name.is_empty() {
+                continue;
+            }
+            // parameter list: up to the matching ')'
+            if let Some(po) = text[name_end..].find('(') {
+                let mut depth = 0;
+                let mut j = name_end + po;
+                let b = text.as_bytes();
+                while j < b.len() {
+                    match b[j] {
+                        b'(' => depth += 1,
+                        b')' => {
+                            depth -= 1;
+                            if depth == 0 {
+                                break;
+                            }
+                        }
+                        _ => {}
+                    }
+                    j += 1;
+                }
+                let params = &text[name_end + po..j.min(text.len())];
+                let has_self = params.contains("self");
+                if !has_self {
+                    continue;
+                }
+                let e = with.entry(name.to_string()).or_insert((0, 0));
+                if params.contains("Tracked(w)") {
+                    e.0 += 1;
+                } else {
+                    e.1 += 1;
+                }
+            }
+        }
+        with.into_iter()
+            .filter(|(n, (a, b))| *a > 0 && *b == 0 && !STOP.contains(&n.as_str()))
+            .map(|(n, _)| format!("*.{n}"))
+            .collect()
+    }
+
     /// every call `.name(first_arg, ..)` in the crate (tests included) must pass `<e>.iter()` as first argument
     fn check_iter_call_sites(&mut self, name: &str) {
         fn walk(dir: &Path, out: &mut Vec<PathBuf>) {
@@ -1506,7 +1622,7 @@ impl Unit {
         die(&format!("lost anchor: type {name} not found in {file}"));
     }
 
-    fn extract_const(&mut self, file: &str, name: &str, contract: &[String], proof: &[String]) {
+    fn extract_const(&mut self, file: &str, name: &str, contract: &[String], proof: &[String], assume: bool) {
         let (_, f) = self.load(file).clone();
         use syn::spanned::Spanned;
         for item in &f.items {
@@ -1535,6 +1651,10 @@ impl Unit {
                 let e = &c.expr;
                 let sp = item.span();
                 let _ = writeln!(self.out, "// ---- fjx: const {} from {}:{} ----", name, file, sp.start().line);
+                if assume {
+                    let _ = writeln!(self.out, "#[verifier::external_body] // ASSUMED: value of a literal Verus cannot evaluate");
+                    log.push("R-CONST contract ASSUMED (literal not evaluable by the verifier)".into());
+                }
                 let _ = writeln!(self.out, "{} exec const {}: {}", vis.to_token_stream(), ident, nospace_ty(&ty.to_token_stream().to_string()));
                 for l in contract {
                     let _ = writeln!(self.out, "{l}");
@@ -1682,7 +1802,10 @@ impl Unit {
                             }
                             i += 1;
                         }
-                        self.extract_const(parts[0].trim(), parts[1].trim(), &contract, &proof);
+                        let mut it2 = parts[1].split_whitespace();
+                        let cname = it2.next().unwrap_or_else(|| die("bad //@extract-const"));
+                        let assume = it2.any(|o| o == "assume");
+                        self.extract_const(parts[0].trim(), cname, &contract, &proof, assume);
                     }
                     "extract-macro" => {
                         let parts: Vec<&str> = rest.split(" :: ").collect();
@@ -1720,6 +1843,8 @@ impl Unit {
                             } else if let Some(n) = o.strip_prefix("iter_arg=") {
                                 let (m, k) = n.split_once(':').unwrap_or_else(|| die("bad iter_arg"));
                                 spec.iter_args.push((m.to_string(), k.parse().unwrap_or_else(|_| die("bad iter_arg index"))))
+                            } else if let Some(n) = o.strip_prefix("until=") {
+                                spec.until = Some(n.replace('~', " "))
                             } else if let Some(n) = o.strip_prefix("ret=") {
                                 spec.ret = n.to_string()
                             } else {
